@@ -37,6 +37,11 @@ var invalidPatterns = []interface{}{
 	[]interface{}{"?", "?x", 1.0},
 	map[string]interface{}{"?k": 1.0, "b": 2.0},
 	map[string]interface{}{"a": map[string]interface{}{"?k": "?v", "c": "?w"}},
+	// ... with a constant key that is visited before the property variable
+	// (it sorts before '?') and that the message may lack
+	map[string]interface{}{"1": 1.0, "?k": "?v"},
+	map[string]interface{}{"#seq": 1.0, "?k": "?v"},
+	map[string]interface{}{"a": map[string]interface{}{"1": "?w", "?k": "?v"}},
 	// values of Go types the matcher does not know (see goValue)
 	map[string]interface{}{"$go": "uint"},
 	map[string]interface{}{"$go": "[]string"},
@@ -375,6 +380,34 @@ func checkPure(c PureCase) (v ev.Verdict) {
 			}
 		}
 	}
+	// The same map objects used for another pattern before: a host that
+	// fills in a pattern in place.  A tame sibling of the pattern (its
+	// variable keys replaced by constant keys: same shape, same sizes) is
+	// matched first; then the very same maps are given the pattern's
+	// contents.  The outcome must be the one found above.
+	if _, isMap := c.Pattern.(map[string]interface{}); isMap {
+		obj := goValue(tamed(jsongen.Copy(c.Pattern)))
+		m := jsongen.Copy(c.Message)
+		var bs match.Bindings
+		if c.Bindings != nil {
+			bs = match.Bindings(jsongen.CopyMap(c.Bindings))
+		}
+		if c.IntNumbers {
+			k := 0
+			m = intify(m, &k)
+			if bs != nil {
+				bs = match.Bindings(intify(map[string]interface{}(bs), &k).(map[string]interface{}))
+			}
+		}
+		match.Match(obj, m, bs)
+		morph(obj, goValue(jsongen.Copy(c.Pattern)))
+		res, err := match.Match(obj, m, bs)
+		if o := outcomeOf(res, err); o.String() != first.String() {
+			v.Failf("outcome depends on what the pattern's map objects held before (a pattern filled in in place): %q, with fresh maps %q", o, first)
+			return
+		}
+		v.Class("reused-map-objects")
+	}
 	v.Class("outcome:" + first.kind)
 	vars := refmatch.Vars(c.Pattern, nil)
 	repeated := false
@@ -390,6 +423,62 @@ func checkPure(c PureCase) (v ev.Verdict) {
 		v.Class("orders>=2")
 	}
 	return
+}
+
+// tamed replaces every map key that looks like a variable by a constant key.
+func tamed(v interface{}) interface{} {
+	switch vv := v.(type) {
+	case map[string]interface{}:
+		if _, marker := vv["$go"]; marker && len(vv) == 1 {
+			return vv
+		}
+		m := make(map[string]interface{}, len(vv))
+		for _, k := range jsongen.SortedKeys(vv) {
+			nk := k
+			if strings.HasPrefix(k, "?") {
+				nk = "zz_" + k[1:]
+			}
+			m[nk] = tamed(vv[k])
+		}
+		return m
+	case []interface{}:
+		a := make([]interface{}, len(vv))
+		for i, x := range vv {
+			a[i] = tamed(x)
+		}
+		return a
+	}
+	return v
+}
+
+// morph gives dst the contents of src, keeping dst's map objects wherever
+// both have a map (at the top, under the same key, or under the tamed
+// spelling of the key).
+func morph(dst, src interface{}) {
+	dm, ok1 := dst.(map[string]interface{})
+	sm, ok2 := src.(map[string]interface{})
+	if !ok1 || !ok2 {
+		return
+	}
+	old := map[string]interface{}{}
+	for k, x := range dm {
+		old[k] = x
+		delete(dm, k)
+	}
+	for k, x := range sm {
+		prev, have := old[k]
+		if !have && strings.HasPrefix(k, "?") {
+			prev, have = old["zz_"+k[1:]]
+		}
+		if pm, is := prev.(map[string]interface{}); have && is {
+			if _, isMap := x.(map[string]interface{}); isMap {
+				morph(pm, x)
+				dm[k] = pm
+				continue
+			}
+		}
+		dm[k] = x
+	}
 }
 
 func TestC03Pure(t *testing.T) {
